@@ -161,11 +161,11 @@ type c12Outcome struct {
 	nOps  int // operator instructions in the SSA program
 }
 
-func (o c12Outcome) sx() SX {
+func (o c12Outcome) sx(cls int) SX {
 	if o.kind == 0 {
-		return L(I(0), Big(o.val))
+		return L(I(0), Big(o.val), I(cls))
 	}
-	return L(I(o.kind), I(o.class))
+	return L(I(o.kind), I(o.class), I(cls))
 }
 func (o c12Outcome) String() string {
 	switch o.kind {
@@ -428,6 +428,152 @@ func c12Consume(cons string, k, n int, isBool bool, ec, ed *c12Expr, cv *big.Int
 	return nil, nil, 0, 0, false
 }
 
+// c12Meta describes the fold a case is about; it is sent to the model, which
+// evaluates Fold.fold_ok_class / fold_exact_class on it, and class() computes
+// the same predicate here (the correspondence check compares the two on every
+// case): 2 = inside fold_exact_class, 1 = inside fold_ok_class only, 0 = outside.
+type c12Meta struct {
+	code   int // 0..18 binary operator, 19 unary minus, 20 !, 21 none
+	k, n   int
+	a, b   *big.Int // operand values (signed); for shifts b = count
+	fa, fb int      // 1: negative operand written T(-x)
+}
+
+func c12NoMeta() c12Meta { return c12Meta{code: 21, a: big.NewInt(0), b: big.NewInt(0)} }
+
+func (m c12Meta) sx() SX {
+	return L(I(m.code), I(m.k), I(m.n), Big(m.a), Big(m.b), I(m.fa), I(m.fb))
+}
+
+func c12Reprb(k, n int, a *big.Int) bool {
+	switch k {
+	case 1:
+		return a.Sign() >= 0 && a.Cmp(c12Pow(n)) < 0
+	case 0:
+		return a.Cmp(new(big.Int).Neg(c12Pow(n-1))) >= 0 && a.Cmp(c12Pow(n-1)) < 0
+	}
+	return a.Sign() == 0 || a.Cmp(big.NewInt(1)) == 0
+}
+
+// Fold.contb (Fold.blen a) for a >= 0
+func c12Cont(a *big.Int) int {
+	mb := a.BitLen()
+	if mb < 1 {
+		mb = 1
+	}
+	if mb > 64 {
+		return mb
+	}
+	if mb > 32 {
+		return 64
+	}
+	return 32
+}
+func c12Canon(n int, a *big.Int) bool { return a.Sign() >= 0 || n == 32 || n == 64 || n > 64 }
+func c12Contv(n int, a *big.Int) int {
+	if a.Sign() < 0 {
+		return n
+	}
+	return c12Cont(a)
+}
+func c12CmpExact(n int, a *big.Int) bool {
+	if a.Sign() < 0 {
+		return n <= 64
+	}
+	return a.Cmp(c12Pow(31)) < 0 || (a.Cmp(c12Pow(32)) >= 0 && a.Cmp(c12Pow(63)) < 0)
+}
+func c12CountOk(b *big.Int) bool { return b.Sign() >= 0 && b.Cmp(c12Pow(31)) < 0 }
+
+// Fold.fold_ok_class
+func c12FoldOk(op, k, n int, a, b *big.Int) bool {
+	if k == 2 {
+		return (op == 15 || op == 16 || op == 17 || op == 18) && n == 1 && c12Reprb(2, 1, a) && c12Reprb(2, 1, b)
+	}
+	isShift := op == 9 || op == 10
+	if !(n > 0 && c12Reprb(k, n, a) && c12Canon(n, a)) {
+		return false
+	}
+	if isShift {
+		if !c12CountOk(b) {
+			return false
+		}
+	} else if !(c12Reprb(k, n, b) && c12Canon(n, b)) {
+		return false
+	}
+	p63 := c12Pow(63)
+	M := c12Contv(n, a)
+	if x := c12Contv(n, b); x > M {
+		M = x
+	}
+	isCmp := op >= 11 && op <= 16
+	if n <= 64 {
+		switch {
+		case op == 1 || op == 2 || (op >= 5 && op <= 9):
+			return true
+		case op == 0:
+			if M == n {
+				return true
+			}
+			mn := M
+			if n < mn {
+				mn = n
+			}
+			return a.Sign() >= 0 && b.Sign() >= 0 && a.Cmp(p63) < 0 && b.Cmp(p63) < 0 &&
+				new(big.Int).Add(a, b).Cmp(c12Pow(mn)) < 0
+		case op == 3 || op == 4:
+			return a.Sign() >= 0 && b.Sign() >= 0 && a.Cmp(p63) < 0 && b.Cmp(p63) < 0
+		case op == 10:
+			return a.Sign() >= 0 && a.Cmp(p63) < 0
+		case isCmp:
+			return c12CmpExact(n, a) && c12CmpExact(n, b)
+		}
+		return false
+	}
+	switch {
+	case op == 2 || (op >= 5 && op <= 9):
+		return true
+	case op == 0 || op == 1:
+		return n-1 <= M
+	case op == 10:
+		return a.Sign() >= 0
+	case isCmp:
+		return c12CmpExact(n, a) && c12CmpExact(n, b)
+	}
+	return false
+}
+
+func (m c12Meta) class() int {
+	exactW := m.n == 32 || m.n >= 64
+	switch {
+	case m.code < 0 || m.code > 20:
+		return 0
+	case m.code == 20:
+		return 2
+	case m.code == 19:
+		if m.a.Sign() < 0 && m.fa == 1 {
+			return 0
+		}
+		if !(m.k != 2 && m.n > 0 && c12Reprb(m.k, m.n, m.a) && c12Canon(m.n, m.a)) {
+			return 0
+		}
+		if exactW {
+			return 2
+		}
+		return 1
+	}
+	isShift := m.code == 9 || m.code == 10
+	if (m.a.Sign() < 0 && m.fa == 1) || (!isShift && m.b.Sign() < 0 && m.fb == 1) {
+		return 0
+	}
+	if !c12FoldOk(m.code, m.k, m.n, m.a, m.b) {
+		return 0
+	}
+	if (m.code >= 11 && m.code <= 18) || exactW {
+		return 2
+	}
+	return 1
+}
+
 type c12Opnd struct {
 	v    *big.Int
 	form int
@@ -488,15 +634,27 @@ func runC12(c *Ctx) error {
 	// one (constant variant, run-time variant) pair; classOf gets the run-time
 	// variant's output (nil when it did not produce one).
 	doPair := func(opName, kName string, n int, classOf func(res *big.Int) string, cons string,
-		ec, ed *c12Expr, rk, rn, defK int) c12Outcome {
+		ec, ed *c12Expr, rk, rn, defK int, meta c12Meta) c12Outcome {
+		cls := meta.class()
+		// is this program inside the region the Coq theorems cover?  as-is / !E
+		// need fold_ok_class, a consumer with a run-time operand needs the exact
+		// width (fold_exact_class); a nested constant fold (E >> 1) is a second fold
+		// and is not claimed.
+		inside := ((cons == "asis" || cons == "not") && cls >= 1) ||
+			((cons == "additive" || cons == "divisive" || cons == "comparing") && cls == 2)
 		path, wcls := c12WidthClass(n)
 		srcC, inC := c12Program(ec, rk, rn, defK, n)
 		srcD, inD := c12Program(ed, rk, rn, defK, n)
 		oc := c12Run(srcC, inC)
 		od := c12Run(srcD, inD)
 		nPrograms += 2
-		c.Case(L(I(rk), I(rn), ec.sx()), oc.sx())
-		c.Case(L(I(rk), I(rn), ed.sx()), od.sx())
+		c.Case(L(I(rk), I(rn), ec.sx(), meta.sx()), oc.sx(cls))
+		c.Case(L(I(rk), I(rn), ed.sx(), meta.sx()), od.sx(cls))
+		if inside {
+			c.Hist("inside-proved-class:" + opName)
+		} else {
+			c.Hist("outside-proved-class:" + opName)
+		}
 		opClass := classOf(od.val)
 		wantOps := 0
 		if cons == "additive" || cons == "divisive" || cons == "comparing" {
@@ -527,6 +685,11 @@ func runC12(c *Ctx) error {
 		}
 		rp := c12Replay{Seed: c.Seed, Const: srcC, Runtime: srcD, Inputs: ins, ConstGot: oc.String(), RuntimeGo: od.String()}
 		base := fmt.Sprintf("c12:%s:%s:%s:%s:%s:%s", opName, kName, opClass, path, wcls, cons)
+		if inside {
+			// never matched by a known finding: a failure inside the proved class
+			// means the model (hence the theorem's object) and the compiler disagree
+			base = "c12:inside-proved-class:" + base[4:]
+		}
 		switch {
 		case oc.kind == 2:
 			c.Fail(base+":panic", fmt.Sprintf("constant folding panics the compiler (%s)", oc.text), rp)
@@ -545,7 +708,7 @@ func runC12(c *Ctx) error {
 
 	// the as-is pair first (its run-time output classifies the folded value),
 	// then the other consumers
-	doGroup := func(opName string, k, n int, isBool bool, ec, ed *c12Expr, ops []c12Opnd, consList []string, cv *big.Int) {
+	doGroup := func(opName string, k, n int, isBool bool, ec, ed *c12Expr, ops []c12Opnd, consList []string, cv *big.Int, meta c12Meta) {
 		kName := []string{"int", "uint", "bool"}[k]
 		var inner *big.Int
 		first := true
@@ -566,7 +729,7 @@ func runC12(c *Ctx) error {
 				}
 				return c12Classify(k, n, ops, r0, cc)
 			}
-			od := doPair(opName, kName, n, classOf, cons, pc, pd, rk, rn, k)
+			od := doPair(opName, kName, n, classOf, cons, pc, pd, rk, rn, k, meta)
 			if first && cons == "asis" && od.kind == 0 && !isBool {
 				inner = c12Signed(k, n, od.val)
 			}
@@ -598,6 +761,7 @@ func runC12(c *Ctx) error {
 					ob := c12Opnd{vb.v, pickForm(vb)}
 					var ec, ed *c12Expr
 					var ops []c12Opnd
+					meta := c12Meta{code: op, k: k, n: n, a: oa.v, b: ob.v, fa: oa.form, fb: ob.form}
 					if isShift {
 						counts := []int{0, 1, 7, n - 1, n, n + 1, 31, 32, 33, 63, 64, 70}
 						cnt := counts[r.Intn(len(counts))]
@@ -605,6 +769,7 @@ func runC12(c *Ctx) error {
 							cnt = 0
 						}
 						lit := c12LitE(big.NewInt(int64(cnt)))
+						meta.b, meta.fb = big.NewInt(int64(cnt)), 0
 						ec = c12BinE(op, c12Operand(k, n, oa.v, oa.form), lit)
 						ed = c12BinE(op, c12InE("a", k, n, oa.v), lit)
 						ops = []c12Opnd{oa}
@@ -628,7 +793,7 @@ func runC12(c *Ctx) error {
 							consList = append(consList, cn)
 						}
 					}
-					doGroup(c12OpNames[op], k, n, isBool, ec, ed, ops, consList, cv)
+					doGroup(c12OpNames[op], k, n, isBool, ec, ed, ops, consList, cv, meta)
 				}
 			}
 			// ---- unary minus
@@ -641,7 +806,8 @@ func runC12(c *Ctx) error {
 				ec := c12NegE(c12Operand(k, n, oa.v, oa.form))
 				ed := c12NegE(c12InE("a", k, n, oa.v))
 				cv := vals[r.Intn(len(vals))].v
-				doGroup("neg", k, n, false, ec, ed, []c12Opnd{oa}, []string{"asis", c12Consumers[1+p%4]}, cv)
+				doGroup("neg", k, n, false, ec, ed, []c12Opnd{oa}, []string{"asis", c12Consumers[1+p%4]}, cv,
+					c12Meta{code: 19, k: k, n: n, a: oa.v, b: big.NewInt(0), fa: oa.form})
 			}
 			// ---- a typed constant on its own (cast of a literal / negated literal)
 			for _, va := range vals {
@@ -654,7 +820,7 @@ func runC12(c *Ctx) error {
 					}
 					ec := c12Operand(k, n, va.v, form)
 					ed := c12InE("a", k, n, va.v)
-					doGroup("operand", k, n, false, ec, ed, []c12Opnd{{va.v, form}}, []string{"asis"}, nil)
+					doGroup("operand", k, n, false, ec, ed, []c12Opnd{{va.v, form}}, []string{"asis"}, nil, c12NoMeta())
 				}
 			}
 		}
@@ -665,14 +831,16 @@ func runC12(c *Ctx) error {
 			for b := 0; b < 2; b++ {
 				ec := c12BinE(op, c12BoolE(a == 1), c12BoolE(b == 1))
 				ed := c12BinE(op, c12InE("a", 2, 1, big.NewInt(int64(a))), c12InE("b", 2, 1, big.NewInt(int64(b))))
-				doGroup(c12OpNames[op], 2, 1, true, ec, ed, nil, []string{"asis", "not"}, nil)
+				doGroup(c12OpNames[op], 2, 1, true, ec, ed, nil, []string{"asis", "not"}, nil,
+					c12Meta{code: op, k: 2, n: 1, a: big.NewInt(int64(a)), b: big.NewInt(int64(b))})
 			}
 		}
 	}
 	for a := 0; a < 2; a++ {
 		ec := c12NotE(c12BoolE(a == 1))
 		ed := c12NotE(c12InE("a", 2, 1, big.NewInt(int64(a))))
-		doGroup("not", 2, 1, true, ec, ed, nil, []string{"asis"}, nil)
+		doGroup("not", 2, 1, true, ec, ed, nil, []string{"asis"}, nil,
+			c12Meta{code: 20, k: 2, n: 1, a: big.NewInt(int64(a)), b: big.NewInt(0)})
 	}
 	// ---- totality probes: operands of different widths of the same kind (each
 	// representable in its own type; the run-time variant of an arithmetic
@@ -692,7 +860,7 @@ func runC12(c *Ctx) error {
 				rk, rn = 2, 1
 			}
 			cls := fmt.Sprintf("mixed-width-%d-%d", mix[0], mix[1])
-			doPair(c12OpNames[op], "uint", mix[0], func(*big.Int) string { return cls }, "asis", ec, ed, rk, rn, 1)
+			doPair(c12OpNames[op], "uint", mix[0], func(*big.Int) string { return cls }, "asis", ec, ed, rk, rn, 1, c12NoMeta())
 		}
 	}
 	c.Note("programs compiled: %d; constant variants with the operator folded away: %d, not folded: %d", nPrograms, nFolded, nNotFolded)
